@@ -153,10 +153,35 @@ def run(rep, pdb, tier):
             it = ctx.term(tb.init) if tb is not None and tb.init is not None else None
             fresh = it is not None and it[0] == "call" and str(it[1]).endswith("Vector<T>::new") and it[2] == N and it[3][0] == "call" and str(it[3][1]).endswith("Zero::zero")
             fs = facts(ctx, e.node)
-            o1 = prove_ge0(j, fs, nonneg_atoms=False)
-            o2 = prove_lt(j, MM, fs)
-            o3 = prove_ge0(lin_add(j, k), fs, nonneg_atoms=False)
-            o4 = prove_lt(lin_add(j, k), N, fs)
+
+            def _cases(fs_):
+                """a bound written as `if c { a } else { b }` (max / min spelled out): one fact set per branch"""
+                for f_ in fs_:
+                    if f_[0] == "cmp":
+                        for side in (2, 3):
+                            t_ = f_[side]
+                            if isinstance(t_, tuple) and t_ and t_[0] == "ite" and len(t_) == 4 and t_[1][0] == "op" and t_[1][1] in ("<", "<=", ">", ">="):
+                                c_ = t_[1]
+                                pos = {"<": ("cmp", "<", c_[2], c_[3]), "<=": ("cmp", "<=", c_[2], c_[3]), ">": ("cmp", "<", c_[3], c_[2]), ">=": ("cmp", "<=", c_[3], c_[2])}[c_[1]]
+                                neg = {"<": ("cmp", "<=", c_[3], c_[2]), "<=": ("cmp", "<", c_[3], c_[2]), ">": ("cmp", "<=", c_[2], c_[3]), ">=": ("cmp", "<", c_[2], c_[3])}[c_[1]]
+                                rest = [x for x in fs_ if x is not f_]
+                                mk = lambda v_: f_[:side] + (v_,) + f_[side + 1:]
+                                # `if e < t { t } else { e }` is max(t, e) (`if t < e { t } else { e }` is min): a lower (upper) bound by it is a bound by both
+                                lo_, hi_ = (c_[2], c_[3]) if c_[1] in ("<", "<=") else (c_[3], c_[2])      # lo_ < hi_ on the `then` branch
+                                d_then_else = lin_sub(t_[2], t_[3])
+                                is_max = d_then_else == lin_sub(hi_, lo_)          # then - else = hi - lo > 0: then is the larger
+                                is_min = d_then_else == lin_sub(lo_, hi_)          # then - else = lo - hi < 0: then is the smaller
+                                lower = (side == 2 and f_[1] in ("<", "<="))         # ite <= x
+                                upper = (side == 3 and f_[1] in ("<", "<="))         # x < ite
+                                if (is_max and lower) or (is_min and upper):
+                                    return _cases(rest + [mk(t_[2]), mk(t_[3])])
+                                return _cases(rest + [mk(t_[2]), pos]) + _cases(rest + [mk(t_[3]), neg])
+                return [fs_]
+            css = _cases(list(fs))
+            o1 = all(prove_ge0(j, c_, nonneg_atoms=False) for c_ in css)
+            o2 = all(prove_lt(j, MM, c_) for c_ in css)
+            o3 = all(prove_ge0(lin_add(j, k), c_, nonneg_atoms=False) for c_ in css)
+            o4 = all(prove_lt(lin_add(j, k), N, c_) for c_ in css)
             for nm, o in (("j>=0", o1), ("j<m1+m2+1", o2), ("j+k>=0", o3), ("j+k<n", o4)):
                 rep.add("matvec-window/%s" % nm, "obligation discharged by single-fact linear entailment from the loop range", o, e.node, "", proof=True)
             ok = shape and fresh
